@@ -171,7 +171,12 @@ func (w *World) bootstrap() error {
 	if len(w.Cfg.Topology) > 0 {
 		// replace the complete graph built by discovery with the requested links
 		for _, n := range w.Nodes {
+			var addrs []string
 			for addr := range n.Goss.Peers() {
+				addrs = append(addrs, addr)
+			}
+			sortStrings(addrs)
+			for _, addr := range addrs {
 				n.Goss.RemovePeer(addr)
 			}
 		}
